@@ -38,7 +38,7 @@ def run(ctx, factor):
         objs = []
         for k in range(ctx.budget(6, 60) * factor):
             nsec = g.int(1, 3)
-            names = [".text", ".text2", ".init"][:nsec]
+            names = g.pick([[".text", ".text2", ".init"], [".text", ".text.Hot", "MyCode"], [".text._ZN3FooC1Ev", ".init", ".text"]])[:nsec]
             secs = [(n, objfuzz.random_bytes(g, g.int(8, 120))) for n in names]
             if nsec > 1 and g.chance(0.5):
                 secs[1] = (secs[1][0], list(secs[0][1]))      # two sections with identical code: identical lines
